@@ -1,4 +1,5 @@
 import BreezyVerif.Lemmas.C49
+import BreezyVerif.Lemmas.C49F
 /-!
 C49 — theorems.  Quantified over all locations, all lists of sections (any
 number, any glob token lists), all option lists and all values.
@@ -146,26 +147,32 @@ theorem none_iff_no_section_defines (secs : List LocSection) (name : Str) :
 
 /-! ### ignore_parents -/
 
-/-- the search stops at the first section (most specific first) whose
-`ignore_parents` is true: nothing yielded is ignoring, and what is cut off
-starts with an ignoring section -/
-theorem ignore_parents_stops (noName : Option (List (Str × Str))) (secs : List PSec) (location : Str) :
+/-- `LocationMatcher.get_sections`: the search goes from the most specific
+candidate down and stops AFTER the first section whose `ignore_parents` is true:
+what is consulted is a prefix of the sorted candidates, no consulted section but
+the last is ignoring, and candidates are dropped only behind an ignoring section -/
+theorem ignore_parents_cut (noName : Option (List (Str × Str))) (secs : List PSec) (location : Str) :
     ∃ rest, sortedSections noName secs location = locationSections noName secs location ++ rest ∧
-      (∀ s ∈ locationSections noName secs location, ignoring s = false) ∧
-      (∀ r ∈ rest.head?, ignoring r = true) := by
-  refine ⟨(sortedSections noName secs location).dropWhile fun s => !ignoring s, ?_, ?_, ?_⟩
-  · unfold locationSections; exact List.takeWhile_append_dropWhile.symm
-  · intro s hs
-    have := mem_takeWhile_true _ _ s hs
-    simpa using this
-  · intro r hr
-    have := List.head?_dropWhile_not (fun s => !ignoring s) (sortedSections noName secs location)
-    rw [Option.mem_def] at hr
-    rw [hr] at this
-    simpa using this
+      (∀ a s b, locationSections noName secs location = a ++ s :: b →
+        (∀ x ∈ a, ignoring x = false) ∧ (b ≠ [] → ignoring s = false)) ∧
+      (rest ≠ [] → ∃ s, (locationSections noName secs location).getLast? = some s ∧ ignoring s = true) :=
+  cut_spec _
 
-/-- the documented cut (`cutAfterIgnoring`) is the code's cut plus the first
-ignoring section: the code omits EXACTLY that one section -/
+/-- without any ignoring candidate every candidate is consulted -/
+theorem ignore_parents_none (noName : Option (List (Str × Str))) (secs : List PSec) (location : Str)
+    (h : ∀ s ∈ sortedSections noName secs location, ignoring s = false) :
+    locationSections noName secs location = sortedSections noName secs location := by
+  unfold locationSections
+  generalize sortedSections noName secs location = l at h
+  induction l with
+  | nil => rfl
+  | cons a r ih =>
+    have ha := h a (by simp)
+    simp only [cutAfterIgnoring, ha, Bool.false_eq_true, if_false]
+    rw [ih (fun s hs => h s (by simp [hs]))]
+
+/-- HISTORICAL: the loop before fix 5b060e5 (`locationSectionsExcl`) consulted
+exactly one section less — the first ignoring one -/
 theorem ignore_parents_gap (l : List LocSection) :
     cutAfterIgnoring l = l.takeWhile (fun s => !ignoring s) ++ ((l.dropWhile fun s => !ignoring s).head?).toList := by
   induction l with
@@ -177,35 +184,16 @@ theorem ignore_parents_gap (l : List LocSection) :
     · have h' : ignoring s = false := by simpa using h
       simp [h', ih]
 
-/-- PARTIAL: the code agrees with the documented semantics of `ignore_parents`
-when no candidate section sets it to true.  Otherwise see the witness below. -/
-theorem ignore_parents_partial (noName : Option (List (Str × Str))) (secs : List PSec) (location : Str)
-    (h : ∀ s ∈ sortedSections noName secs location, ignoring s = false) :
-    locationSections noName secs location = cutAfterIgnoring (sortedSections noName secs location) := by
-  rw [ignore_parents_gap]
-  unfold locationSections
-  have hd : ∀ l : List LocSection, (∀ s ∈ l, ignoring s = false) →
-      l.dropWhile (fun s => !ignoring s) = [] ∧ l.takeWhile (fun s => !ignoring s) = l := by
-    intro l
-    induction l with
-    | nil => intro _; exact ⟨rfl, rfl⟩
-    | cons a r ih =>
-      intro hl
-      have ha := hl a (by simp)
-      have ihr := ih (fun s hs => hl s (by simp [hs]))
-      simp [List.dropWhile_cons, List.takeWhile_cons, ha, ihr.1, ihr.2]
-  rw [(hd _ h).1]; simp
-
 def wSec : PSec := ⟨['/', 'a'], [(ignoreParentsN, ['t', 'r', 'u', 'e']), (['f', 'o', 'o'], ['m', 'i', 'd'])],
   [[], [.lit 'a']], [.lit '/', .lit 'a']⟩
 
-/-- WITNESS (reproduced on the real code): a section `[/a]` with
-`ignore_parents = true` and `foo = mid`; at location `/a` the code answers
-`None` for `foo`, the documented cut answers `mid`. -/
-theorem ignore_parents_own_section_witness :
+/-- the regression the fix removed, as a machine-checked example: a section `[/a]`
+with `ignore_parents = true` and `foo = mid`; at location `/a` the code answers
+`mid` (the old loop answered `None`) -/
+theorem ignore_parents_own_section_example :
     prepare ['/', 'a'] wSec.opts = some wSec ∧
-    stackGet (locationSections none [wSec] ['/', 'a']) ['f', 'o', 'o'] = .none ∧
-    stackGet (cutAfterIgnoring (sortedSections none [wSec] ['/', 'a'])) ['f', 'o', 'o'] = .val ['m', 'i', 'd'] := by
+    stackGet (locationSections none [wSec] ['/', 'a']) ['f', 'o', 'o'] = .val ['m', 'i', 'd'] ∧
+    stackGet (locationSectionsExcl none [wSec] ['/', 'a']) ['f', 'o', 'o'] = .none := by
   have hs : sortedSections none [wSec] ['/', 'a'] =
       [⟨some ['/', 'a'], wSec.opts, [], ['a']⟩] := by
     unfold sortedSections
@@ -214,9 +202,140 @@ theorem ignore_parents_own_section_witness :
     rw [this, List.mergeSort_singleton]; rfl
   refine ⟨by decide, ?_, ?_⟩
   · unfold locationSections; rw [hs]; decide
-  · rw [hs]; decide
+  · unfold locationSectionsExcl; rw [hs]; decide
+
+/-! ### most specific wins (composition) -/
+
+/-- the candidates: the no-name section with key 0, and one entry per named
+section that matches, carrying its number of components, its id, the unmatched
+suffix of the location and the branch name -/
+theorem matching_sections_mem (noName : Option (List (Str × Str))) (secs : List PSec) (location : Str)
+    (m : Nat × Str × LocSection) :
+    m ∈ matchingSections noName secs location ↔
+      (∃ o, noName = some o ∧ m = (0, [], (⟨none, o, location, []⟩ : LocSection))) ∨
+      (∃ p ∈ secs, compsMatch (parts location) p.comps = true ∧
+        m = (p.comps.length, p.id,
+          (⟨some p.id, p.opts, extraPath (parts location) p.comps.length, urlBasename location⟩ : LocSection))) := by
+  unfold matchingSections
+  rw [List.mem_append, iter_by_parts_spec]
+  constructor
+  · rintro (h | h)
+    · left
+      cases noName with
+      | none => simp at h
+      | some o => exact ⟨o, rfl, by simpa using h⟩
+    · right
+      simp only [List.map_map, List.mem_map, List.mem_filter, Function.comp] at h
+      obtain ⟨p, ⟨hp, hm⟩, rfl⟩ := h
+      exact ⟨p, hp, hm, rfl⟩
+  · rintro (⟨o, rfl, rfl⟩ | ⟨p, hp, hm, rfl⟩)
+    · left; simp
+    · right
+      simp only [List.map_map, List.mem_map, List.mem_filter, Function.comp]
+      exact ⟨p, ⟨hp, hm⟩, rfl⟩
+
+/-- MOST SPECIFIC WINS.  If `Stack.get` through a `LocationMatcher` answers `v`,
+then `v` is the unquoted value of a candidate `t` (a matching section or the
+no-name section) that defines the option, and EVERY candidate that is strictly
+more specific than `t` (more matched components, or as many and a larger id)
+neither defines the option nor sets `ignore_parents`. -/
+theorem most_specific_wins (noName : Option (List (Str × Str))) (secs : List PSec) (location name v : Str)
+    (h : stackGet (locationSections noName secs location) name = .val v) :
+    ∃ t raw, t ∈ matchingSections noName secs location ∧ secGet' t.2.2 name = some raw ∧ v = unquote raw ∧
+      ∀ m ∈ matchingSections noName secs location, keyGe t m = false →
+        secGet' m.2.2 name = none ∧ ignoring m.2.2 = false := by
+  obtain ⟨l₁, s, l₂, raw, hcut, hundef, hdef, hv⟩ := value_from_first_defining _ _ _ h
+  unfold locationSections at hcut
+  obtain ⟨hnoign, rest, hsorted⟩ := cut_split _ _ _ _ hcut
+  unfold sortedSections at hsorted
+  obtain ⟨L₁, L₂', hL, hL₁, hL₂'⟩ := List.map_eq_append_iff.mp hsorted
+  obtain ⟨t, L₂, hL₂, hts, _⟩ := List.map_eq_cons_iff.mp hL₂'
+  subst hL₂
+  have hperm := sorted_is_permutation noName secs location
+  have hpw := List.pairwise_mergeSort (le := keyGe) keyGe_trans keyGe_total (matchingSections noName secs location)
+  rw [hL] at hperm hpw
+  refine ⟨t, raw, ?_, by rw [hts]; exact hdef, hv, ?_⟩
+  · exact hperm.subset (by simp)
+  · intro m hm hlt
+    have hmL : m ∈ L₁ ++ t :: L₂ := hperm.symm.subset hm
+    rw [List.pairwise_append] at hpw
+    rcases List.mem_append.mp hmL with h1 | h2
+    · have hm1 : m.2.2 ∈ l₁ := by rw [← hL₁]; exact List.mem_map.mpr ⟨m, h1, rfl⟩
+      exact ⟨hundef _ hm1, hnoign _ hm1⟩
+    · rcases List.mem_cons.mp h2 with e | e
+      · subst e
+        have := keyGe_total m m
+        simp only [Bool.or_self] at this
+        rw [this] at hlt; cases hlt
+      · have := (List.pairwise_cons.mp hpw.2.1).1 m e
+        rw [this] at hlt; cases hlt
+
+/-- … and `None` exactly when no consulted candidate defines the option -/
+theorem location_none_iff (noName : Option (List (Str × Str))) (secs : List PSec) (location name : Str) :
+    stackGet (locationSections noName secs location) name = .none ↔
+      ∀ s ∈ locationSections noName secs location, secGet' s name = none :=
+  none_iff_no_section_defines _ _
 
 /-! ### LocationSection.get -/
+
+/-- FUEL SUFFICIENCY: the `name:policy:policy…` recursion of `LocationSection.get`
+needs one more existing, strictly longer key per level, so it ends within
+(number of keys at least as long as `name`) + 1 levels -/
+theorem secGet_fuel (s : LocSection) : ∀ (fuel : Nat) (name : Str), cntGe name.length s.opts < fuel →
+    ∃ r, secGet fuel s name = some r
+  | 0, _, h => absurd h (Nat.not_lt_zero _)
+  | fuel + 1, name, h => by
+    unfold secGet
+    cases hl : lookup name s.opts with
+    | none => exact ⟨none, rfl⟩
+    | some v =>
+      have hc := lookup_cnt hl
+      have hlen : (name ++ policySuffix).length = name.length + 7 := by simp [policySuffix]
+      obtain ⟨pol, hpol⟩ := secGet_fuel s fuel (name ++ policySuffix) (by rw [hlen]; omega)
+      simp only [hpol]
+      exact ⟨_, rfl⟩
+
+/-- more fuel never changes an answer -/
+theorem secGet_mono (s : LocSection) : ∀ (fuel : Nat) (name : Str) (r : Option Str),
+    secGet fuel s name = some r → secGet (fuel + 1) s name = some r
+  | 0, _, _, h => by simp [secGet] at h
+  | fuel + 1, name, r, h => by
+    rw [secGet] at h ⊢
+    cases hl : lookup name s.opts with
+    | none => rw [hl] at h; exact h
+    | some v =>
+      rw [hl] at h
+      simp only at h ⊢
+      cases hp : secGet fuel s (name ++ policySuffix) with
+      | none => rw [hp] at h; cases h
+      | some pol =>
+        rw [hp] at h
+        rw [secGet_mono s fuel _ pol hp]
+        exact h
+
+theorem secGet_mono_le (s : LocSection) (name : Str) (r : Option Str) (f : Nat) (h : secGet f s name = some r) :
+    ∀ k, secGet (f + k) s name = some r
+  | 0 => h
+  | k + 1 => secGet_mono s (f + k) name r (secGet_mono_le s name r f h k)
+
+/-- `secGet'` (the model of `LocationSection.get` the other theorems use) never
+runs out of fuel: its answer is THE answer of the recursion at any sufficient depth -/
+theorem secGet'_spec (s : LocSection) (name : Str) (r : Option Str) :
+    secGet' s name = r ↔ ∃ fuel, secGet fuel s name = some r := by
+  have hsuff : cntGe name.length s.opts < s.opts.length + 2 := by
+    have := cntGe_le_length name.length s.opts; omega
+  obtain ⟨r0, hr0⟩ := secGet_fuel s (s.opts.length + 2) name hsuff
+  have h' : secGet' s name = r0 := by unfold secGet'; rw [hr0]
+  constructor
+  · intro h; exact ⟨s.opts.length + 2, by rw [hr0, ← h', h]⟩
+  · rintro ⟨f, hf⟩
+    have e1 := secGet_mono_le s name r f hf (s.opts.length + 2)
+    have e2 := secGet_mono_le s name r0 (s.opts.length + 2) hr0 f
+    rw [Nat.add_comm] at e2
+    rw [e1] at e2
+    rw [h']; cases e2; rfl
+
+
 
 theorem expand_plain_appendpath (s : LocSection) : expandLocals s appendpathN = appendpathN := by
   rfl
@@ -261,31 +380,40 @@ theorem appendpath_value (s : LocSection) (name v : Str)
 
 def relpathRef : Str := '{' :: relpathN ++ ['}']
 def basenameRef : Str := '{' :: basenameN ++ ['}']
+def branchnameRef : Str := '{' :: branchnameN ++ ['}']
 
-/-- `{relpath}` expands to the extra path and `{basename}` to its last
-component, wherever they occur after reference-free text -/
+/-- `{relpath}` expands to the extra path, `{basename}` to its last component and
+`{branchname}` to the branch name, wherever they occur after reference-free text
+(`rest` is arbitrary, so this covers every reference of a value whose other text
+has no `{`) -/
 theorem relpath_basename_expansion (s : LocSection) (pre rest : Str) (hpre : '{' ∉ pre) :
     expandLocals s (pre ++ relpathRef ++ rest) = pre ++ s.extra ++ expandLocals s rest ∧
-    expandLocals s (pre ++ basenameRef ++ rest) = pre ++ urlBasename s.extra ++ expandLocals s rest := by
+    expandLocals s (pre ++ basenameRef ++ rest) = pre ++ urlBasename s.extra ++ expandLocals s rest ∧
+    expandLocals s (pre ++ branchnameRef ++ rest) = pre ++ s.branch ++ expandLocals s rest := by
   induction pre with
   | nil =>
-    constructor
+    refine ⟨?_, ?_, ?_⟩
     · simp only [List.nil_append, expandLocals, relpathRef, relpathN, List.cons_append, scanRefs, refStep,
         refIdle, isWordStart, isWord]
       simp [expandChunk, localOf, relpathN]
     · simp only [List.nil_append, expandLocals, basenameRef, basenameN, List.cons_append, scanRefs, refStep,
         refIdle, isWordStart, isWord]
       simp [expandChunk, localOf, relpathN, basenameN]
+    · simp only [List.nil_append, expandLocals, branchnameRef, branchnameN, List.cons_append, scanRefs, refStep,
+        refIdle, isWordStart, isWord]
+      simp [expandChunk, localOf, relpathN, basenameN, branchnameN]
   | cons c pre ih =>
     have hc : c ≠ '{' := fun e => hpre (by simp [e])
     have hpre' : '{' ∉ pre := fun h => hpre (by simp [h])
-    obtain ⟨ih1, ih2⟩ := ih hpre'
-    unfold expandLocals at ih1 ih2 ⊢
-    constructor
+    obtain ⟨ih1, ih2, ih3⟩ := ih hpre'
+    unfold expandLocals at ih1 ih2 ih3 ⊢
+    refine ⟨?_, ?_, ?_⟩
     · simp only [List.cons_append]
       rw [scanRefs_idle_plain s c hc, ih1]
     · simp only [List.cons_append]
       rw [scanRefs_idle_plain s c hc, ih2]
+    · simp only [List.cons_append]
+      rw [scanRefs_idle_plain s c hc, ih3]
 
 /-! ### StartingPathMatcher -/
 
@@ -310,13 +438,131 @@ theorem starting_sections_spec (noName : Option (List (Str × Str))) (secs : Lis
     · simp only [h, if_true]; rw [ih]; rfl
     · simp only [h]; rw [ih]; rfl
 
-/-! ### store round trip (abstract quoting) -/
+/-! ### store round trip: Stack.set → save → load → Stack.get -/
 
-/-- if `unquote ∘ quote = id` (what the harness tests on the real store), a
-value set in a section is read back unchanged -/
-theorem store_roundtrip (q uq : Str → Str) (h : ∀ v, uq (q v) = v) (opts : List (Str × Str)) (k v : Str) :
-    (lookup k (setOpt k (q v) opts)).map uq = some v := by
-  rw [lookup_setOpt_same]; simp [h]
+/-- VALUE LEVEL.  For a value without line boundary, without both quote kinds and
+without a Unicode blank at an unquoted end (`okValue`): `Stack.set` stores a string
+`q1` that `IniFileStore.unquote` maps back to the value, `ConfigObj.write` turns
+`q1` into a text `q2` without line boundary, and the parser reads `q2` (after the
+`=\s*` of the key line, whatever lines follow) back as exactly `q1`, on one line,
+without inline comment — so the stored string is a fixed point of save + load. -/
+theorem quote_unquote_partial (v : Str) (h : okValue v = true) :
+    ∃ q1 q2, cquote true v = some q1 ∧ unquote q1 = v ∧ cquote false q1 = some q2 ∧
+      (∀ c ∈ q2, isLineBreak c = false) ∧
+      ∀ rest, parseOptValue (q2.dropWhile isSpace) rest = some (q1, 0, []) := by
+  obtain ⟨q1, h1, h2, q2, h3, h4, h5⟩ := quote_reloadable v h
+  exact ⟨q1, q2, h1, h2, h3, h4, h5⟩
+
+/-- FILE LEVEL, any number of options.  Options with plain, pairwise different keys
+and `okValue` values are set on an empty section (the no-name section or a plainly
+named one), the store is saved and loaded again: the load succeeds and yields
+exactly these options, in order, in that section, without inline comments, each
+un-quoting to the value that was set; and saving the loaded store again writes the
+very same file (so every later generation reads the same values).
+`fix = false` is the code as it is (hypothesis `okValue`); `fix = true` is the code
+with the fix proposed for roundtrip-unicode-blank-at-end, where the hypothesis on the
+ends of the value is not needed (`okValueFix`). -/
+theorem store_roundtrip_partial (fix : Bool) (sec : Option Str) (hsec : sec.all plainSec = true)
+    (opts : List (Str × Str))
+    (hk : ∀ o ∈ opts, plainKey o.1 = true) (hnd : (opts.map (·.1)).Nodup)
+    (hv : ∀ o ∈ opts, okFor fix o.2 = true) :
+    ∃ stored content loaded, quoteAll fix opts = some stored ∧ writeSection sec stored = some content ∧
+      loadContent content = .opts loaded ∧
+      loaded.map (fun e => (e.sec, e.key, unquote e.raw, e.comment)) = opts.map (fun o => (sec, o.1, o.2, [])) ∧
+      writeSection sec (loaded.map fun e => (e.key, e.raw, e.comment)) = some content := by
+  obtain ⟨stored, hst, hkeys, hrel, hvals⟩ := quoteAll_ok fix opts hv
+  have hall : ∀ s ∈ stored, plainKey s.1 = true ∧ Reloadable s.2.1 ∧ s.2.2 = [] := by
+    intro s hs
+    have hm : s.1 ∈ opts.map (·.1) := by rw [← hkeys]; exact List.mem_map.mpr ⟨s, hs, rfl⟩
+    obtain ⟨o, ho, he⟩ := List.mem_map.mp hm
+    exact ⟨by rw [← he]; exact hk o ho, hrel s hs⟩
+  have hnd' : (stored.map (·.1)).Nodup := by rw [hkeys]; exact hnd
+  have hloaded : ∀ (sec' : Option Str),
+      (stored.map fun s => (⟨sec', s.1, s.2.1, []⟩ : Entry)).map (fun e => (e.key, e.raw, e.comment)) = stored := by
+    intro sec'
+    rw [List.map_map]
+    conv => rhs; rw [← List.map_id stored]
+    apply List.map_congr_left
+    intro s hs
+    have := (hall s hs).2.2
+    obtain ⟨k, raw, c⟩ := s
+    simp only at this; subst this; rfl
+  have hvals' : ∀ (sec' : Option Str),
+      (stored.map fun s => (⟨sec', s.1, s.2.1, []⟩ : Entry)).map (fun e => (e.sec, e.key, unquote e.raw, e.comment)) =
+        opts.map (fun o => (sec', o.1, o.2, [])) := by
+    intro sec'
+    rw [List.map_map]
+    apply List.ext_getElem
+    · have := congrArg List.length hkeys; simpa using this
+    · intro i h1 h2
+      have e1 := congrArg (fun l => l[i]?) hkeys
+      have e2 := congrArg (fun l => l[i]?) hvals
+      simp only [List.getElem?_map] at e1 e2
+      have hi1 : i < stored.length := by simpa using h1
+      have hi2 : i < opts.length := by simpa using h2
+      rw [List.getElem?_eq_getElem hi1, List.getElem?_eq_getElem hi2] at e1 e2
+      simp only [Option.map_some, Option.some.injEq] at e1 e2
+      simp [e1, e2]
+  cases sec with
+  | none =>
+    obtain ⟨body, hbody, hparse⟩ := write_parse_opts none [] stored [] hall hnd' (by simp)
+    refine ⟨stored, body, _, hst, hbody, ?_, hvals' none, ?_⟩
+    · unfold loadContent splitLines; rw [hparse]; rfl
+    · rw [hloaded none]; exact hbody
+  | some n =>
+    have hn : plainSec n = true := by simpa using hsec
+    obtain ⟨body, hbody, hparse⟩ := write_parse_opts (some n) [n] stored [] hall hnd' (by simp)
+    obtain ⟨ht, hcl, hlb⟩ := classify_header_line hn
+    refine ⟨stored, '[' :: n ++ ']' :: '\n' :: body, _, hst, by simp [writeSection, hn, hbody], ?_, hvals' (some n), ?_⟩
+    · unfold loadContent splitLines
+      have e : '[' :: n ++ ']' :: '\n' :: body = ('[' :: n ++ [']']) ++ '\n' :: body := by simp
+      rw [e, splitLinesAux_line _ [] body hlb]
+      simp only [List.reverse_nil, List.nil_append]
+      simp only [parseLines, ht, Bool.false_eq_true, if_false, hcl]
+      simp only [List.contains_nil, List.any_nil, Bool.or_self, Bool.false_eq_true, if_false]
+      rw [hparse]; rfl
+    · rw [hloaded (some n)]; simp [writeSection, hn, hbody]
+
+/-! the three input families on which the real round trip FAILS, reproduced by the
+model (each is also reproduced on the real code by the harness on every run) -/
+
+def optK : Str := ['o', 'p', 't']
+
+/-- the whole round trip of one option in the no-name section: value read back, or `none` -/
+def readBack1 (v : Str) (fix : Bool := false) : Option Str :=
+  match quoteAll fix [(optK, v)] with
+  | none => none
+  | some stored =>
+    match writeSection none stored with
+    | none => none
+    | some content =>
+      match loadContent content with
+      | .opts [e] => some (unquote e.raw)
+      | _ => none
+
+/-- WITNESS roundtrip-line-break: the value a-newline-b is stored inside three double
+quotes, written inside three single quotes around that, parsed back with the three
+double quotes, and un-quoting removes only ONE quote of the three on each side -/
+theorem roundtrip_line_break_witness :
+    okValue ['a', '\n', 'b'] = false ∧
+    readBack1 ['a', '\n', 'b'] = some ['"', '"', 'a', '\n', 'b', '"', '"'] := by decide
+
+/-- WITNESS roundtrip-both-quote-kinds: a value that starts and ends with a single
+quote and has a double quote inside comes back without its own quotes; one with both
+kinds and a `#` comes back with two extra double quotes on each side -/
+theorem roundtrip_both_quote_kinds_witness :
+    okValue ['\'', 'a', '"', '\''] = false ∧ readBack1 ['\'', 'a', '"', '\''] = some ['a', '"'] ∧
+    readBack1 ['x', '\'', '"', '#'] = some ['"', '"', 'x', '\'', '"', '#', '"', '"'] := by decide
+
+/-- WITNESS roundtrip-unicode-blank-at-end: a no-break space (or U+3000) at an end of
+an otherwise unquoted value is not a reason to quote for configobj (wspace_plus),
+but the parser's `\s*` strips it -/
+theorem roundtrip_unicode_blank_witness :
+    okValue ['a', Char.ofNat 0xa0] = false ∧ readBack1 ['a', Char.ofNat 0xa0] = some ['a'] ∧
+    okValue [Char.ofNat 0x3000, 'a'] = false ∧ readBack1 [Char.ofNat 0x3000, 'a'] = some ['a'] ∧
+    -- … and with the proposed fix both survive
+    readBack1 ['a', Char.ofNat 0xa0] true = some ['a', Char.ofNat 0xa0] ∧
+    readBack1 [Char.ofNat 0x3000, 'a'] true = some [Char.ofNat 0x3000, 'a'] := by decide
 
 theorem store_set_other_unchanged (opts : List (Str × Str)) (k k' w : Str) (hne : k' ≠ k) :
     lookup k' (setOpt k w opts) = lookup k' opts :=
@@ -351,8 +597,30 @@ example : let s : LocSection := ⟨some ['/', 'a'], [(['f'], ['v']), (['f'] ++ p
     lookup ['f'] s.opts = some ['v'] ∧ lookup (['f'] ++ policySuffix) s.opts = some appendpathN ∧
     lookup (['f'] ++ policySuffix ++ policySuffix) s.opts = none ∧
     secGet' s ['f'] = some ['v', '/', 'x', '/', 'y'] := by decide
--- hypothesis of ignore_parents_partial holds for a store without ignore_parents …
+-- hypothesis of ignore_parents_none holds for a store without ignore_parents …
 example : ∀ s ∈ [(⟨some ['/', 'a'], [(['f'], ['v'])], [], []⟩ : LocSection)], ignoring s = false := by decide
+-- most_specific_wins: `[/a]` and `[/a/b]` both define `f`; at `/a/b/c` the deeper one answers
+def exP1 : PSec := ⟨['/', 'a'], [(['f'], ['1'])], [[], [.lit 'a']], [.lit '/', .lit 'a']⟩
+def exP2 : PSec := ⟨['/', 'a', '/', 'b'], [(['f'], ['2'])], [[], [.lit 'a'], [.lit 'b']], [.lit '/', .lit 'a', .lit '/', .lit 'b']⟩
+example : prepare ['/', 'a'] [(['f'], ['1'])] = some exP1 ∧ prepare ['/', 'a', '/', 'b'] [(['f'], ['2'])] = some exP2 := by
+  decide
+example : stackGet (locationSections none [exP2, exP1] ['/', 'a', '/', 'b', '/', 'c']) ['f'] = .val ['2'] := by
+  have hm : matchingSections none [exP2, exP1] ['/', 'a', '/', 'b', '/', 'c'] =
+      [(3, exP2.id, ⟨some exP2.id, exP2.opts, ['c'], ['c']⟩), (2, exP1.id, ⟨some exP1.id, exP1.opts, ['b', '/', 'c'], ['c']⟩)] := by
+    decide
+  have hs : sortedSections none [exP2, exP1] ['/', 'a', '/', 'b', '/', 'c'] =
+      [⟨some exP2.id, exP2.opts, ['c'], ['c']⟩, ⟨some exP1.id, exP1.opts, ['b', '/', 'c'], ['c']⟩] := by
+    unfold sortedSections
+    rw [hm, List.mergeSort_of_pairwise (by decide)]; rfl
+  unfold locationSections; rw [hs]; decide
+-- okValue: a value that needs every kind of care (blank at an end, comma, `#`, one quote kind) …
+example : okValue [' ', 'a', ',', '#', '\''] = true ∧ readBack1 [' ', 'a', ',', '#', '\''] = some [' ', 'a', ',', '#', '\''] := by
+  decide
+-- … and the hypotheses of store_roundtrip_partial for a named section with two options
+example : (some ['/', 'a', '/', 'b'] : Option Str).all plainSec = true ∧
+    (∀ o ∈ [(optK, [' ', 'x', '#', '"']), (['o', '1'], ([] : Str))], plainKey o.1 = true ∧ okFor false o.2 = true) ∧
+    okFor true [Char.ofNat 0xa0, 'a'] = true ∧
+    ([(optK, [' ', 'x', '#', '"']), (['o', '1'], ([] : Str))].map (·.1)).Nodup := by decide
 -- … and expansion
 example : expandLocals ⟨none, [], ['x', '/', 'y'], ['b']⟩ (['p', '-'] ++ relpathRef ++ ['.'] ++ basenameRef)
     = ['p', '-', 'x', '/', 'y', '.', 'y'] := by decide
